@@ -11,7 +11,12 @@ package main
 //   - an assignment / op-assignment / ++ / -- / copy / clear / &p[i] goes through it;
 //   - it is passed in the output position of one of the known output-parameter functions
 //     (the functions whose own entry below is non-empty; fixed point).
-// The theorem pins the complete table: only the documented output parameters are modified.
+// A modified parameter is accepted only as an OUTPUT parameter of an UNEXPORTED function, recognised by a
+// name-independent criterion: the first statement (in source order) that mentions the parameter uses it
+// ONLY as a destination (target of an assignment through it, receiver of an overwriting method whose
+// arguments do not mention it, destination of copy, or output position of another function) — its
+// incoming value is never read before it is overwritten.  `exported` = exported name and, for methods,
+// exported receiver type.  The theorem quantifies over the table; it names no function.
 
 import (
 	"fmt"
@@ -37,10 +42,26 @@ var ed448ReadOnlyMethods = map[string]bool{
 }
 
 type e448Fn struct {
-	name   string
-	decl   *ast.FuncDecl
-	file   string
-	params []string // in order, receiver excluded
+	name     string
+	decl     *ast.FuncDecl
+	file     string
+	params   []string // in order, receiver excluded
+	exported bool
+}
+
+// methods that READ the old value of their receiver (so a call is not a pure overwrite)
+var ed448ReadsReceiver = map[string]bool{"CondNeg": true, "Swap": true, "carryPropagate": true, "reduce": true}
+
+// e448Mentions counts the occurrences of identifiers aliasing parameter p in n
+func e448Mentions(n ast.Node, origin map[string]string, p string) int {
+	k := 0
+	ast.Inspect(n, func(nd ast.Node) bool {
+		if id, ok := nd.(*ast.Ident); ok && origin[id.Name] == p {
+			k++
+		}
+		return true
+	})
+	return k
 }
 
 func e448Root(e ast.Expr) *ast.Ident {
@@ -103,7 +124,7 @@ func genEdwards448Facts() ([]byte, error) {
 			if !ok || fd.Body == nil {
 				continue
 			}
-			fn := &e448Fn{name: fd.Name.Name, decl: fd, file: n}
+			fn := &e448Fn{name: fd.Name.Name, decl: fd, file: n, exported: ast.IsExported(fd.Name.Name)}
 			if fd.Recv != nil && len(fd.Recv.List) == 1 {
 				t := fd.Recv.List[0].Type
 				if st, ok := t.(*ast.StarExpr); ok {
@@ -111,6 +132,7 @@ func genEdwards448Facts() ([]byte, error) {
 				}
 				if id, ok := t.(*ast.Ident); ok {
 					fn.name = id.Name + "." + fn.name
+					fn.exported = fn.exported && ast.IsExported(id.Name)
 				}
 			}
 			if fd.Type.Params != nil {
@@ -136,6 +158,7 @@ func genEdwards448Facts() ([]byte, error) {
 		byShort[short] = append(byShort[short], fn)
 	}
 	mutated := map[*e448Fn]map[string]bool{}
+	origins := map[*e448Fn]map[string]string{}
 	for _, fn := range fns {
 		mutated[fn] = map[string]bool{}
 	}
@@ -178,6 +201,7 @@ func genEdwards448Facts() ([]byte, error) {
 				return true
 			})
 		}
+		origins[fn] = origin
 		mark := func(e ast.Expr) {
 			if r := e448Root(e); r != nil {
 				if p := origin[r.Name]; p != "" && !mutated[fn][p] {
@@ -246,22 +270,128 @@ func genEdwards448Facts() ([]byte, error) {
 			break
 		}
 	}
+	// output-parameter criterion: the first leaf statement mentioning p uses it only as a destination
+	isOutput := func(fn *e448Fn, p string) bool {
+		origin := origins[fn]
+		var first ast.Stmt
+		ast.Inspect(fn.decl.Body, func(nd ast.Node) bool {
+			if first != nil {
+				return false
+			}
+			switch st := nd.(type) {
+			case *ast.ExprStmt, *ast.AssignStmt, *ast.IncDecStmt, *ast.ReturnStmt, *ast.DeclStmt, *ast.GoStmt, *ast.DeferStmt, *ast.SendStmt:
+				if e448Mentions(st, origin, p) > 0 {
+					first = st.(ast.Stmt)
+				}
+				return false
+			case *ast.IfStmt: // the condition is evaluated before the body
+				if st.Init == nil && e448Mentions(st.Cond, origin, p) > 0 {
+					first = &ast.ExprStmt{X: st.Cond}
+					return false
+				}
+			case *ast.ForStmt:
+				if st.Cond != nil && e448Mentions(st.Cond, origin, p) > 0 {
+					first = &ast.ExprStmt{X: st.Cond}
+					return false
+				}
+			case *ast.RangeStmt:
+				if e448Mentions(st.X, origin, p) > 0 {
+					first = &ast.ExprStmt{X: st.X}
+					return false
+				}
+			case *ast.SwitchStmt:
+				if st.Tag != nil && e448Mentions(st.Tag, origin, p) > 0 {
+					first = &ast.ExprStmt{X: st.Tag}
+					return false
+				}
+			}
+			return true
+		})
+		if first == nil {
+			return false
+		}
+		total := e448Mentions(first, origin, p)
+		dest := 0
+		isP := func(e ast.Expr) bool {
+			r := e448Root(e)
+			return r != nil && origin[r.Name] == p
+		}
+		var calls func(e ast.Expr)
+		calls = func(e ast.Expr) {
+			call, ok := e.(*ast.CallExpr)
+			if !ok {
+				return
+			}
+			argsMention := 0
+			for _, a := range call.Args {
+				argsMention += e448Mentions(a, origin, p)
+			}
+			if sel, ok := call.Fun.(*ast.SelectorExpr); ok && isP(sel.X) {
+				if !ed448ReadOnlyMethods[sel.Sel.Name] && !ed448ReadsReceiver[sel.Sel.Name] && argsMention == 0 {
+					dest += e448Mentions(sel.X, origin, p)
+				}
+				return
+			}
+			callee := calleeName(call.Fun)
+			short := callee
+			if i := strings.LastIndex(short, "."); i >= 0 {
+				short = short[i+1:]
+			}
+			if short == "copy" && len(call.Args) == 2 && isP(call.Args[0]) && e448Mentions(call.Args[1], origin, p) == 0 {
+				dest += e448Mentions(call.Args[0], origin, p)
+				return
+			}
+			for _, g := range byShort[short] {
+				for i, a := range call.Args {
+					if i < len(g.params) && mutated[g][g.params[i]] && isP(a) && argsMention == e448Mentions(a, origin, p) {
+						dest += e448Mentions(a, origin, p)
+					}
+				}
+			}
+		}
+		switch st := first.(type) {
+		case *ast.ExprStmt:
+			calls(st.X)
+		case *ast.AssignStmt:
+			rhsMention := 0
+			for _, r := range st.Rhs {
+				rhsMention += e448Mentions(r, origin, p)
+			}
+			if rhsMention == 0 && st.Tok == token.ASSIGN {
+				for _, l := range st.Lhs {
+					if _, plain := l.(*ast.Ident); !plain && isP(l) {
+						// index expressions of the target must not read p either: count only the root occurrence
+						if e448Mentions(l, origin, p) == 1 {
+							dest++
+						}
+					}
+				}
+			} else if len(st.Rhs) == 1 { // out := f(p, …) with p in an output position
+				calls(st.Rhs[0])
+			}
+		}
+		return dest == total
+	}
 	var b strings.Builder
 	b.WriteString("/- GENERATED by /verif/translator (edwards448facts.go) from internal/edwards448/*.go. Do not edit. -/\n")
 	b.WriteString("namespace Gen.Edwards448Facts\n\n")
-	b.WriteString("/-- per function: the parameters (receiver excluded) whose object the body can modify -/\n")
-	b.WriteString("def paramMutations : List (String × List String) := [\n")
+	b.WriteString("/-- per function: (name, exported, the parameters — receiver excluded — whose object the body can modify, each with\n    `true` iff it is an OUTPUT parameter: the first statement mentioning it uses it only as a destination) -/\n")
+	b.WriteString("def paramMutations : List (String × Bool × List (String × Bool)) := [\n")
 	for i, fn := range fns {
 		var ps []string
 		for p := range mutated[fn] {
 			ps = append(ps, p)
 		}
 		sort.Strings(ps)
+		var cells []string
+		for _, p := range ps {
+			cells = append(cells, fmt.Sprintf("(%s, %v)", leanStr(p), isOutput(fn, p)))
+		}
 		sep := ","
 		if i == len(fns)-1 {
 			sep = ""
 		}
-		b.WriteString("  (" + leanStr(fn.name) + ", " + leanStrList(ps) + ")" + sep + "\n")
+		b.WriteString(fmt.Sprintf("  (%s, %v, [%s])%s\n", leanStr(fn.name), fn.exported, strings.Join(cells, ", "), sep))
 	}
 	b.WriteString("]\n\nend Gen.Edwards448Facts\n")
 	return []byte(b.String()), nil
